@@ -21,3 +21,13 @@ CHECKS["C14"] = {"pkg": "crypto", "shards": 12,
     "technique": "differential property-based testing (rapid) against an independent textbook secp256k1 (math/big, affine, double-and-add)",
     "text": "Generated-input search with a differential oracle: key derivation, public-key parsing, signing, verification, recovery, ECDH and the deterministic key iterator are compared with a 300-line textbook implementation on edge-biased scalars, every invalid public-key class and structurally mutated signatures.",
     "note": "trusted: math/big, crypto/sha256 and the reference curve code (harness/internal/ref/curve); the s in (n/2,2^255) band is judged under C10, not here"}
+
+CHECKS["C10"] = {"pkg": "crypto", "shards": 12,
+    "technique": "mutation-based property testing (rapid): structured and bit-level third-party mutations of valid signatures, signed transactions and signed blocks; algebraically constructed chosen-s signatures; big-integer low-s oracle",
+    "text": "Generated-input search: every generated valid signature / signed transaction / signed block is mutated without the keys (all single bits in thorough, s negation, r+n, recovery-id re-encodings, appended bytes, reordering with recomputed public fields) and any accepted mutant must equal the original; signatures with a chosen s are constructed algebraically to test the low-s rule on both sides of n/2. Structural malleability only - no cryptanalysis.",
+    "note": "acceptance role = the node-side predicates (DeserializeTransaction+Verify+VerifyInputSignatures against the spent outputs; SignedBlock.VerifySignature+body hash); known finding high-s-band is probed and excluded by construction"}
+
+CHECKS["C15"] = {"pkg": "crypto", "shards": 8,
+    "technique": "exhaustive short-input enumeration plus property-based testing (rapid) against the big-integer definition of base58 and a reference address construction",
+    "text": "All byte strings of length <=2 and all strings of length <=3 over a 70-symbol hostile alphabet are enumerated; longer inputs and mutated address texts are sampled. Oracle: math/big base58 in both directions, decode => canonical re-encode, address text decodes iff reference construction says so.",
+    "note": "trusted: math/big, crypto/sha256; ripemd160 of public keys is not part of this property (addresses are generated from random 20-byte keys)"}
